@@ -340,6 +340,15 @@ func c07Monitor(c *lib.Ctx, x []byte, label string) {
 				c.Known("F5", x, "round trip is not a fixpoint for record.distance: second generation %s, third %s", d.Exp, d.Got)
 				continue
 			}
+			if es := lib.Profile().Field(ref.MesgRecord, 73); es != nil && d.Global == ref.MesgRecord && d.Slot == "Records" && d.Sindex == es.Sindex && d.Index < len(preds3) && preds3[d.Index].Expands {
+				// enhanced_speed of a record whose compressed_speed_distance expands: the third
+				// generation takes it from the speed the expansion produced one generation earlier.
+				raw := preds3[d.Index].Raw
+				if d.GotV.K == 'u' && d.GotV.N == uint64(raw[0])|uint64(raw[1]&0x0F)<<8 {
+					c.Known("F16", x, "round trip is not a fixpoint for record.enhanced_speed when compressed_speed_distance and speed are both present: second generation %s, third %s (= the 12-bit speed slice)", d.Exp, d.Got)
+					continue
+				}
+			}
 			c.Violation(x, "%s: one round trip is not a fixpoint: %s", label, d.String())
 			return
 		}
